@@ -5,6 +5,7 @@ node delivers, in order and on demand, exactly the successes the specification l
 import RegexVerif.Lemmas.CompileStep
 import RegexVerif.Lemmas.CompileLoop
 import RegexVerif.Lemmas.CompileCut
+import RegexVerif.Lemmas.CompileGLoop
 
 namespace RegexVerif.Compile
 open RegexVerif.VM RegexVerif.Code RegexVerif.Writer RegexVerif.Generated.Opcodes RegexVerif RegexVerif.Spec
@@ -21,8 +22,12 @@ structure World where
   hstr : X.p.strings = fin.strings.toArray
   hnsets : X.p.nsets = fin.sets.length
   hsl : ∀ g : Nat, X.sl g = (mapCapnum ⟨caps, none⟩ (g : Int)).toNat
-  /-- the text is shorter than the "unbounded" repeat count `MaxInt32` -/
+  /-- the text is not longer than the "unbounded" repeat count `MaxInt32` -/
   hlen : X.se.n ≤ 2147483647
+  /-- the tier up to which trees are considered in this world … -/
+  k : Nat
+  /-- … and from tier 4 (general loops: the iteration counter must stay below `MaxInt32`) on, strictly shorter -/
+  hlenS : 4 ≤ k → X.se.n < 2147483647
 
 def World.cfg (W : World) : Cfg := ⟨W.caps, none⟩
 
@@ -50,7 +55,7 @@ theorem sizeAlt_cons_cons (cfg : Cfg) (c d : GoNode) (ds : List GoNode) :
   simp
 
 /-- the highest tier the simulation lemma covers so far -/
-def maxTier : Nat := 3
+def maxTier : Nat := 4
 
 section main
 variable (W : World)
@@ -96,11 +101,14 @@ theorem capture_delivers {a i : Nat} {T S : List Int} {C : List (Nat × Nat × N
     · intro s'' hf
       exact capturemark_back (by simpa using hf) hcm
 
+variable (hWk : W.k ≤ maxTier)
+include hWk
+
 mutual
 /-- **the simulation lemma**: the code of a node of the fragment delivers the specification's successes of its
     pattern -/
 theorem node_delivers : ∀ (n : GoNode) (a : Nat) (tb : Tables) (pat : Pat),
-    tier n ≤ maxTier → toPat W.TPx false n = some pat → n.ok = true → capsOk W.cfg W.X.p.capsize n = true →
+    tier n ≤ W.k → toPat W.TPx false n = some pat → n.ok = true → capsOk W.cfg W.X.p.capsize n = true →
     boundsOk n = true → CodeAt W.X.p a (emitNode W.cfg a tb n).1 → TabExt (emitNode W.cfg a tb n).2 W.fin →
     ∀ (i : Nat) (T S : List Int) (C : List (Nat × Nat × Nat)) (s : VMState), St.wf W.X.se.n ⟨i, C⟩ → T ≠ [] →
       Entry W.X a i T S C s → Delivers W.X (a + size W.cfg n) T S S C (m W.X.se pat false ⟨i, C⟩) s
@@ -113,7 +121,7 @@ theorem node_delivers : ∀ (n : GoNode) (a : Nat) (tb : Tables) (pat : Pat),
     simp only [toPat] at hp
     simp only [emitNode] at hcode
     have hne : ¬ t = opUpdateBumpalong := by
-      intro h; subst h; simp [tier, maxTier] at ht
+      intro h; subst h; have ht := Nat.le_trans ht hWk; simp [tier, maxTier] at ht
     have := bare_delivers W.hrel hwf.1 hp hne he hcode.instr (by simpa using hcode.fetch_end)
     simpa [size] using this
   | .char t rtl ci ch, a, tb, pat, _, hp, hok, _, _, hcode, _, i, T, S, C, s, hwf, _, he => by
@@ -197,7 +205,8 @@ theorem node_delivers : ∀ (n : GoNode) (a : Nat) (tb : Tables) (pat : Pat),
       simp only [size]
       exact multi_delivers W.hrel hwf.1 he hia hget hf
     · cases hp
-  | .ref rtl ci g, a, tb, pat, ht, _, _, _, _, _, _, i, T, S, C, s, _, _, _ => by simp [tier, maxTier] at ht
+  | .ref rtl ci g, a, tb, pat, ht, _, _, _, _, _, _, i, T, S, C, s, _, _, _ => by
+    have ht := Nat.le_trans ht hWk; simp [tier, maxTier] at ht
   | .charloop t rtl ci ch lo hi, a, tb, pat, _, hp, hok, _, hbd, hcode, _, i, T, S, C, s, hwf, _, he => by
     simp only [toPat] at hp
     simp only [emitNode] at hcode
@@ -273,8 +282,27 @@ theorem node_delivers : ∀ (n : GoNode) (a : Nat) (tb : Tables) (pat : Pat),
       exact alt_delivers cs a (a + sizeAlt W.cfg cs) tb ps hne rfl (by simpa [tier] using ht) hps hok.2
         (by simpa [capsOk] using hcaps) (by simpa [boundsOk] using hbd) (by simpa [emitNode] using hcode)
         (by simpa [emitNode] using hext) i T S C s hwf hT he
-  | .loop lzy lo hi c, a, tb, pat, ht, _, _, _, _, _, _, i, T, S, C, s, _, _, _ => by
-    simp [tier, maxTier] at ht; omega
+  | .loop lzy lo hi c, a, tb, pat, ht, hp, hok, hcaps, hbd, hcode, hext, i, T, S, C, s, hwf, hT, he => by
+    simp only [toPat] at hp
+    cases hpc : toPat W.TPx false c with
+    | none => rw [hpc] at hp; cases hp
+    | some pc =>
+      rw [hpc] at hp
+      simp only [Option.map_some, Option.some.injEq] at hp
+      subst hp
+      simp only [emitNode] at hcode hext
+      simp only [boundsOk, Bool.and_eq_true, decide_eq_true_eq] at hbd
+      obtain ⟨⟨⟨h0, hmn⟩, hnm⟩, hbc⟩ := hbd
+      simp only [tier, Nat.max_le] at ht
+      have hn : W.X.se.n < 2147483647 := W.hlenS ht.1
+      have := gloopnode_delivers W.hrel hn (sz := size W.cfg c) (f := m W.X.se pc false) (d := false) h0 hmn hnm hcode
+        (emitNode_size _ _ _ _) (fun st st' h => m_dir _ pc false st st' h)
+        (fun st hst st' h => m_wf _ pc false st hst st' h)
+        (fun p C' T' S' s' hwf' hT' he' => node_delivers c (a + loopHeadLen lo hi) tb pc ht.2 hpc
+          (by simpa [GoNode.ok] using hok) (by simpa [capsOk] using hcaps) hbc (loop_body_codeAt hcode) hext p T' S' C' s'
+          hwf' hT' he') hwf he
+      refine this.cast (by simp only [size]; omega) ?_
+      simp only [m]
   | .capture g n c, a, tb, pat, ht, hp, hok, hcaps, hbd, hcode, hext, i, T, S, C, s, hwf, hT, he => by
     simp only [toPat] at hp
     split at hp
@@ -335,7 +363,7 @@ theorem node_delivers : ∀ (n : GoNode) (a : Nat) (tb : Tables) (pat : Pat),
         refine this.cast (by simp only [size]; omega) ?_
         simp only [m]
         cases m W.X.se pc false ⟨i, C⟩ <;> simp [posLookRes]
-    · simp only [maxTier, Nat.max_le] at ht; omega
+    · have ht := Nat.le_trans ht hWk; simp only [maxTier, Nat.max_le] at ht; omega
   | .neglook c, a, tb, pat, ht, hp, hok, hcaps, hbd, hcode, hext, i, T, S, C, s, hwf, hT, he => by
     simp only [tier] at ht
     split at ht
@@ -357,7 +385,7 @@ theorem node_delivers : ∀ (n : GoNode) (a : Nat) (tb : Tables) (pat : Pat),
         refine this.cast (by simp only [size]; omega) ?_
         simp only [m]
         cases m W.X.se pc false ⟨i, C⟩ <;> simp [negLookRes]
-    · simp only [maxTier, Nat.max_le] at ht; omega
+    · have ht := Nat.le_trans ht hWk; simp only [maxTier, Nat.max_le] at ht; omega
   | .atomic c, a, tb, pat, ht, hp, hok, hcaps, hbd, hcode, hext, i, T, S, C, s, hwf, hT, he => by
     simp only [toPat] at hp
     cases hpc : toPat W.TPx false c with
@@ -376,17 +404,18 @@ theorem node_delivers : ∀ (n : GoNode) (a : Nat) (tb : Tables) (pat : Pat),
       refine this.cast (by simp only [size]; omega) ?_
       simp only [m]
   | .backrefcond1 g y, a, tb, pat, ht, _, _, _, _, _, _, i, T, S, C, s, _, _, _ => by
-    simp [tier, maxTier] at ht; omega
+    have ht := Nat.le_trans ht hWk; simp [tier, maxTier] at ht; omega
   | .backrefcond2 g y n, a, tb, pat, ht, _, _, _, _, _, _, i, T, S, C, s, _, _, _ => by
-    simp [tier, maxTier] at ht; omega
+    have ht := Nat.le_trans ht hWk; simp [tier, maxTier] at ht; omega
   | .exprcond2 c y, a, tb, pat, ht, _, _, _, _, _, _, i, T, S, C, s, _, _, _ => by
-    simp [tier, maxTier] at ht; omega
+    have ht := Nat.le_trans ht hWk; simp [tier, maxTier] at ht; omega
   | .exprcond3 c y n, a, tb, pat, ht, _, _, _, _, _, _, i, T, S, C, s, _, _, _ => by
-    simp [tier, maxTier] at ht; omega
-  | .other t, a, tb, pat, ht, _, _, _, _, _, _, i, T, S, C, s, _, _, _ => by simp [tier, maxTier] at ht
+    have ht := Nat.le_trans ht hWk; simp [tier, maxTier] at ht; omega
+  | .other t, a, tb, pat, ht, _, _, _, _, _, _, i, T, S, C, s, _, _, _ => by
+    have ht := Nat.le_trans ht hWk; simp [tier, maxTier] at ht
 /-- `Concatenate`: the children one after the other -/
 theorem list_delivers : ∀ (cs : List GoNode) (a : Nat) (tb : Tables) (ps : List Pat),
-    tierList cs ≤ maxTier → toPatList W.TPx false cs = some ps → okList cs = true →
+    tierList cs ≤ W.k → toPatList W.TPx false cs = some ps → okList cs = true →
     capsOkList W.cfg W.X.p.capsize cs = true → boundsOkList cs = true →
     CodeAt W.X.p a (emitList W.cfg a tb cs).1 → TabExt (emitList W.cfg a tb cs).2 W.fin →
     ∀ (i : Nat) (T S : List Int) (C : List (Nat × Nat × Nat)) (s : VMState), St.wf W.X.se.n ⟨i, C⟩ → T ≠ [] →
@@ -425,7 +454,7 @@ theorem list_delivers : ∀ (cs : List GoNode) (a : Nat) (tb : Tables) (ps : Lis
           hwf' (by simp [hT]) he'
 /-- `Alternate`: `Lazybranch next; ⟨branch⟩; Goto end` for every branch but the last -/
 theorem alt_delivers : ∀ (cs : List GoNode) (a fin : Nat) (tb : Tables) (ps : List Pat), cs ≠ [] →
-    fin = a + sizeAlt W.cfg cs → tierList cs ≤ maxTier → toPatList W.TPx false cs = some ps → okList cs = true →
+    fin = a + sizeAlt W.cfg cs → tierList cs ≤ W.k → toPatList W.TPx false cs = some ps → okList cs = true →
     capsOkList W.cfg W.X.p.capsize cs = true → boundsOkList cs = true →
     CodeAt W.X.p a (emitAlt W.cfg a fin tb cs).1 → TabExt (emitAlt W.cfg a fin tb cs).2 W.fin →
     ∀ (i : Nat) (T S : List Int) (C : List (Nat × Nat × Nat)) (s : VMState), St.wf W.X.se.n ⟨i, C⟩ → T ≠ [] →
